@@ -247,7 +247,9 @@ func c08Cases(quick bool) []EnumCase {
 	return out
 }
 
-func c08Cfg() hapi.Config { return hapi.Config{FastKeys: 4, Concurrent: 1, FileBuf: 64, RewriteSz: 1 << 20} }
+func c08Cfg() hapi.Config {
+	return hapi.Config{FastKeys: 4, Concurrent: 1, FileBuf: 64, RewriteSz: 1 << 20}
+}
 
 // prefixStates: the states recovered from the clean record prefixes 0..n of the newest append file.
 func prefixStates(cfg hapi.Config, final vos.Image, na string, at int64) ([]string, string) {
